@@ -25,7 +25,11 @@ Inductive c11_case :=
 (* one operation in which the client issues several requests for one named URL (retry attempts;
    HEAD + segments of a parallel download); one observation per request made *)
 | ReissueCase (ps : list policy) (init : bytes) (hs : hdrs) (scripts : list (list bytes))
-              (obs : list (list (bytes * hdrs) * bool)).
+              (obs : list (list (bytes * hdrs) * bool))
+(* a call with digest auth whose chain, when it completes, ends in a 401 + Digest challenge: every
+   request the origin saw, the re-send included *)
+| DigestCase (ps : list policy) (init : bytes) (hs : hdrs) (targets : list bytes)
+             (obs_sent : list (bytes * hdrs)) (obs_refused : bool).
 
 (* Host header as net/http writes it: an empty port is dropped ("h:" -> "h") *)
 Definition drop_empty_port (h : bytes) : bytes :=
@@ -66,4 +70,5 @@ Definition c11_check (c : c11_case) : bool :=
                            end)
                (run_sched ps sched (map (fun c => chain_start (fst (fst c)) (snd (fst c)) (snd c)) chains)) obs
   | ReissueCase ps init hs scripts obs => list_eqb outcome_eqb (reissue ps init hs scripts) obs
+  | DigestCase ps init hs ts obs refused => outcome_eqb (digest_call ps init hs ts) (obs, refused)
   end.
